@@ -29,8 +29,8 @@ META = dict(
          "of 'most recent Pause' are accepted (pre-pause value or the safe value left by the first Pause).",
 )
 
-OUTS = ("Out1", "Out2", "Free", "Out3")
-WRITERS = {"SetOut": "Out1", "Set1": "Out1", "Valve": "Out2", "On1": "Out1", "OpenV": "Out2"}
+OUTS = ("Out1", "Out2", "Free", "Out3", "Out4")
+WRITERS = {"SetOut": ("Out1",), "Set1": ("Out1", "Out4"), "Valve": ("Out2",), "On1": ("Out1", "Out4"), "OpenV": ("Out2",)}
 
 # abstract events; ("set1",) and ("valve",) are made concrete per position (fresh value / toggled value); ("bogus",) injects
 # a line that fails when interpreted (error pause about three ticks later)
@@ -162,7 +162,7 @@ class Monitor:
             self.run_no += 1
             self.seen_run = {r: {self.prev_out[r]} for r in OUTS}
         self.rid = rid if post["started"] else None
-        writers = {WRITERS[c[1]] for c in ob["cmd"] if c[2] == "exec" and c[1] in WRITERS}
+        writers = {r for c in ob["cmd"] if c[2] == "exec" and c[1] in WRITERS for r in WRITERS[c[1]]}
         was_paused = self.shadow is not None
 
         if was_paused:
